@@ -107,11 +107,11 @@ Section Twa.
   Qed.
 
   Theorem twa_is_average start now :
-    start < now -> now - start <= I64MAX -> (now - start) * APY_MAX <= U128MAX ->
+    start < now -> (now - start) * APY_MAX <= U128MAX ->
     twa start now grad = Some (sec_sum (Z.to_nat (now - start)) / (now - start)).
   Proof.
-    intros Hlt Hi Hb. unfold twa.
-    destruct (now <=? start) eqn:E1; [lia|]. destruct (I64MAX <? now - start) eqn:E2; [lia|].
+    intros Hlt Hb. unfold twa.
+    destruct (now <=? start) eqn:E1; [lia|].
     set (T := now - start) in *. f_equal. f_equal.
     assert (HW : WEEK = 604800) by reflexivity.
     assert (HT : 0 < T) by lia.
